@@ -1,15 +1,25 @@
 (** C05 — simplification preserves meaning and terminates.  Property theorems only.
-    Proved (fragments 1-2 of the well-formedness predicate SimpProofs.wf, which also carries an arbitrary predicate Q that every identifier of the tree satisfies — the simplifier invents no identifier —: constants, identifiers, memory cells with any well-formed
-    address, conditionals, the n-ary operators + * ^ & | on operands of one width, unary and binary minus, slices; all widths at most 64): for EVERY such tree,
-    every fuel and every result the model Simp.simp returns, the result is again well formed, has the same width, and has the
-    same value under every valuation of identifiers, every memory and every interpretation of uninterpreted operators.
-    This covers flattening, canonical sorting, constant folding through the fixed-width integer classes, A op 0, the
-    singleton rule, duplicate / cancelling-pair removal, all minus rules, the conditional rules, the slice rules (whole-width slice,
-    slice of a constant, slice of a slice, low bytes of a memory cell), the bottom-up traversal and
-    the fixpoint loop.  Termination: Simp.simp is total by construction (explicit fuel); OutOfFuel is a distinct result that
-    the correspondence never observes on the generated trees (fuel 64).
-    NOT yet proved: concatenations (merge_sliceto_slice), shifts / rotates / == / parity rules — for those the property is
-    decided by the exact-tree correspondence with expression_helper.py and the exhaustive valuation search (harness/p_c05.py). *)
+    Proved, for EVERY tree of the well-formedness predicate SimpProofs.wf (parameters: a switch ac that turns concatenations on or
+    off, and an arbitrary predicate Q every identifier of the tree satisfies — the simplifier invents no identifier), every fuel and
+    every result the model Simp.simp returns: the result is again well formed, has the same width, and has the same value under
+    every valuation of identifiers, every memory and every interpretation of uninterpreted operators.
+    Well-formed trees (all widths at most 64): constants, identifiers, memory cells with any well-formed address, conditionals;
+    the n-ary operators + * ^ & | on operands of one width, unary and binary minus; slices; the shifts << >> a>> on a value and a
+    count of any two widths; == on two operands of one width; parity; the rotations <<< >>> on a value of width 8, 16, 32 or 64
+    and an 8-bit count; and (ac = true) concatenations — non-empty slots inside [0, 64] with distinct starts, one of them 0, no two
+    overlapping, a constant piece at least as wide as its slot, any other piece exactly as wide.
+    This covers EVERY rewriting rule of _expr_simp and merge_sliceto_slice: flattening, canonical sorting, constant folding through
+    the fixed-width integer classes, A op 0, the singleton rule, duplicate / cancelling-pair removal, all minus rules, the shift
+    rules (constant folds, count 0, (X & m) >> c = 0 when m < 2^c), the == rules (constant fold, (X | m) == 0 = 0 when m <> 0), the
+    parity fold, the rotation rules (count 0, count = width, two rotations in a row merged by adding or subtracting their counts
+    modulo 2^8), the concatenation rules (classification, masking and merging of adjacent constants, merging of adjacent slices of
+    one source, sorting by start; the single-slot rule), the conditional rules, the slice rules (whole-width slice, slice of a
+    constant, of a slice, of a concatenation, low bytes of a memory cell), the bottom-up traversal and the fixpoint loop.
+    Termination: Simp.simp is total by construction (explicit fuel); OutOfFuel is a distinct result that the correspondence never
+    observes on the generated trees (fuel 64).
+    NOT covered: trees outside the predicate (operands of different widths, rotations with other count widths, widths above 64,
+    overlapping slots ...) — for those the property is decided by the exact-tree correspondence with expression_helper.py, the
+    audit of every rewritten case and the exhaustive valuation search (harness/p_c05.py). *)
 From Coq Require Import ZArith List Bool String.
 From Mx Require Import Expr Simp SimpProofs.
 Import ListNotations.
@@ -55,4 +65,15 @@ Example C05_compose_nonvacuous :
   (wf true Q e2 = true /\ simp 20 e2 = Ok (ECompose [(b, 0, 8); (EInt false 32 0, 8, 32)])) /\
   (wf true Q e3 = true /\ simp 20 e3 = Ok (EInt false 8 5)) /\
   (wf true Q e4 = true /\ simp 20 e4 = Ok (EOp "+" [ECompose [(EInt false 32 259, 0, 16); (ESlice a 16 32, 16, 32)]; EInt false 32 1])).
+Proof. vm_compute. repeat split; reflexivity. Qed.
+(** rotations inside the fragment: counts add up (3 + 5), a rotation by the width disappears, opposite rotations cancel *)
+Example C05_rot_nonvacuous :
+  let Q := fun (_ : string) (_ : Z) (_ _ : bool) => true in
+  let a := EId "eax" 32 true true in let cl := EId "cl" 8 false true in
+  let e1 := EOp "<<<" [EOp "<<<" [a; EInt false 8 3]; EInt false 8 5] in
+  let e2 := EOp ">>>" [EOp "<<<" [a; cl]; EInt false 8 32] in
+  let e3 := EOp ">>>" [EOp "<<<" [a; EInt false 8 7]; EInt false 8 7] in
+  (wf false Q e1 = true /\ simp 20 e1 = Ok (EOp "<<<" [a; EInt false 8 8])) /\
+  (wf false Q e2 = true /\ simp 20 e2 = Ok (EOp "<<<" [a; cl])) /\
+  (wf false Q e3 = true /\ simp 20 e3 = Ok a).
 Proof. vm_compute. repeat split; reflexivity. Qed.
